@@ -261,7 +261,11 @@ func (i *ICMPv6) NextLayerType() gopacket.LayerType {
 }
 
 func (i *ICMPv6) VerifyChecksum() (error, gopacket.ChecksumVerificationResult) {
-	bytes := append(i.Contents, i.Payload...)
+	// Do not append to i.Contents directly: it has spare capacity inside the
+	// packet buffer, so that would write into (shared) packet data.
+	bytes := make([]byte, 0, len(i.Contents)+len(i.Payload))
+	bytes = append(bytes, i.Contents...)
+	bytes = append(bytes, i.Payload...)
 
 	existing := i.Checksum
 	verification, err := i.computeChecksum(bytes, IPProtocolICMPv6)
